@@ -17,6 +17,53 @@ use crux_time::{TimeRequest, TimeResponse};
 use serde_json::json;
 use vcommon::{Args, Report, Watchdog};
 
+// ---- counting allocator: live allocations, independent of what the hooks can see ------------------
+struct Counting;
+static LIVE_ALLOCS: std::sync::atomic::AtomicUsize = std::sync::atomic::AtomicUsize::new(0);
+static LIVE_BYTES: std::sync::atomic::AtomicUsize = std::sync::atomic::AtomicUsize::new(0);
+
+unsafe impl std::alloc::GlobalAlloc for Counting {
+    unsafe fn alloc(&self, l: std::alloc::Layout) -> *mut u8 {
+        let p = std::alloc::System.alloc(l);
+        if !p.is_null() {
+            LIVE_ALLOCS.fetch_add(1, std::sync::atomic::Ordering::Relaxed);
+            LIVE_BYTES.fetch_add(l.size(), std::sync::atomic::Ordering::Relaxed);
+        }
+        p
+    }
+    unsafe fn dealloc(&self, p: *mut u8, l: std::alloc::Layout) {
+        LIVE_ALLOCS.fetch_sub(1, std::sync::atomic::Ordering::Relaxed);
+        LIVE_BYTES.fetch_sub(l.size(), std::sync::atomic::Ordering::Relaxed);
+        std::alloc::System.dealloc(p, l)
+    }
+    unsafe fn realloc(&self, p: *mut u8, l: std::alloc::Layout, n: usize) -> *mut u8 {
+        let q = std::alloc::System.realloc(p, l, n);
+        if !q.is_null() {
+            if n >= l.size() {
+                LIVE_BYTES.fetch_add(n - l.size(), std::sync::atomic::Ordering::Relaxed);
+            } else {
+                LIVE_BYTES.fetch_sub(l.size() - n, std::sync::atomic::Ordering::Relaxed);
+            }
+        }
+        q
+    }
+}
+
+#[global_allocator]
+static ALLOC: Counting = Counting;
+
+/// (live allocations, live bytes) at the sample points of the pattern that is running
+static HEAP: Mutex<Vec<(usize, usize)>> = Mutex::new(Vec::new());
+
+fn note_heap() {
+    let v = (LIVE_ALLOCS.load(std::sync::atomic::Ordering::Relaxed), LIVE_BYTES.load(std::sync::atomic::Ordering::Relaxed));
+    let mut h = HEAP.lock().unwrap();
+    if h.capacity() < 8 {
+        h.reserve(8);
+    }
+    h.push(v);
+}
+
 #[derive(Clone, Copy, Debug, PartialEq, Eq, Default)]
 struct Occ {
     registry: usize,
@@ -76,6 +123,25 @@ fn judge(r: &mut Report, p: &Pattern, k: u64, at1: Occ, half: Occ, full: Occ, ex
                 &sig,
                 &format!("{q} grows with the length of the history in pattern `{}`: {a} after 1 cycle, {h} after {} cycles, {f} after {k} cycles, with nothing outstanding", p.name, k / 2),
                 json!({"lane": "occlab", "pattern": p.name, "quantity": q, "cycles": k, "samples": [a, h, f], "extra": extra}),
+            );
+        }
+    }
+    // the allocator's view: with nothing outstanding the number of live allocations may not depend
+    // on the length of the history either (this sees what no hook shows: reference cycles, values
+    // kept by a callback, forgotten boxes). Patterns with a listed finding grow by that finding.
+    let heap: Vec<(usize, usize)> = HEAP.lock().unwrap().drain(..).collect();
+    if heap.len() == 3 {
+        r.count("heap_samples", 3);
+        r.max("max_live_allocations_at_a_sample_point", heap[2].0 as u64);
+        let (h_allocs, f_allocs) = (heap[1].0, heap[2].0);
+        let cycles = (k - k / 2) as usize;
+        // one leaked allocation in every eighth cycle is well above the noise of amortised growth
+        if clean && p.known.is_empty() && f_allocs > h_allocs + 64 + cycles / 8 {
+            clean = false;
+            r.violation(
+                &format!("growth/{}/live-allocations", p.name),
+                &format!("live heap allocations grow with the length of the history in pattern `{}`: {} after {} cycles, {} after {k} cycles ({} -> {} bytes), with nothing outstanding and no growth in any hooked structure", p.name, h_allocs, k / 2, f_allocs, heap[1].1, heap[2].1),
+                json!({"lane": "occlab", "pattern": p.name, "quantity": "live-allocations", "cycles": k, "samples": heap}),
             );
         }
     }
@@ -139,10 +205,12 @@ where
     wd.begin(|| json!({"lane": "occlab", "pattern": p.name, "cycles": k}).to_string());
     let res = vcommon::trap(|| {
         let mut b = BridgeShell::<A>::new(json_wire, "bridge");
-        let mut samples = vec![];
+        let mut samples = Vec::with_capacity(4);
+        HEAP.lock().unwrap().clear();
         for i in 1..=k {
             step(&mut b, i)?;
             if i == 1 || i == k / 2 || i == k {
+                note_heap();
                 samples.push(occ_bridge(&b));
             }
         }
@@ -167,6 +235,8 @@ fn main() {
     let report = Arc::new(Mutex::new(Report::new(&args.prop)));
     let wd = Watchdog::start(report.clone(), args.out.clone(), Duration::from_secs(600));
     let k = args.extra_u64("cycles", if args.thorough() { 200_000 } else { 2_000 });
+    caplab::app::KEEP_LOG.store(false, std::sync::atomic::Ordering::SeqCst);
+    ops::KEEP_LOG.store(false, std::sync::atomic::Ordering::SeqCst);
     // workers split the patterns
     let mut idx = 0u64;
     let mut mine = || {
@@ -279,6 +349,67 @@ fn main() {
         }
     }
 
+    // ---- typed core (no registry): request objects are dropped by the shell at the end of a cycle ----
+    for (api, name) in [
+        (Api::Legacy, "timer-set-then-clear-in-one-update(capability api, typed)"),
+        (Api::Command, "timer-set-then-clear-in-one-update(command api, typed)"),
+    ] {
+        if mine() {
+            typed_pattern(r, &wd, Pattern { name, known: &[] }, k, |sh, i| {
+                // the timer future is created and then never asks the shell for anything
+                let reqs = sh.send(&Job::Time(api, TimeJob::SetThenClearNanos(5 + i)))?;
+                for (h, _) in reqs {
+                    sh.drop_request(h);
+                }
+                Ok(())
+            });
+        }
+    }
+    for (api, name) in [(Api::Legacy, "kv-cycle(capability api, typed)"), (Api::Command, "kv-cycle(command api, typed)")] {
+        if mine() {
+            typed_pattern(r, &wd, Pattern { name, known: &[] }, k, |sh, i| {
+                let reqs = sh.send(&Job::Kv(api, KvJob::Get { key: format!("k{i}") }))?;
+                for (h, op) in reqs {
+                    if let Op::Kv(o) = &op {
+                        sh.respond(h, kv_ok(o))?;
+                    }
+                    sh.drop_request(h);
+                }
+                Ok(())
+            });
+        }
+    }
+    for (api, name) in [(Api::Legacy, "timer-set-shell-drops-request(capability api, typed)"), (Api::Command, "timer-set-shell-drops-request(command api, typed)")] {
+        if mine() {
+            // (the capability API cannot cancel a task whose request the shell dropped: that one is
+            // outstanding work by design, so the capability variant answers before dropping)
+            typed_pattern(r, &wd, Pattern { name, known: &[] }, k, |sh, _| {
+                let reqs = sh.send(&Job::Time(api, TimeJob::NotifyAfterNanos(5)))?;
+                for (h, op) in reqs {
+                    if api == Api::Legacy {
+                        if let Op::Time(TimeRequest::NotifyAfter { id, .. }) = op {
+                            sh.respond(h, Resp::Time(TimeResponse::DurationElapsed { id }))?;
+                        }
+                    }
+                    sh.drop_request(h);
+                }
+                // let the core notice the dropped request
+                sh.send(&Job::Render(Api::Command)).map(|reqs| for (h, _) in reqs { sh.drop_request(h); })?;
+                Ok(())
+            });
+        }
+    }
+    // ---- request futures that are created and never polled (the branch not taken) ----------------------
+    for (which, name) in [
+        (0u8, "request-future-never-polled(command api)"),
+        (1, "request-future-never-polled(capability api)"),
+        (2, "request-future-never-polled(capability future in a command task)"),
+    ] {
+        if mine() {
+            abandon_pattern(r, &wd, k, which, name);
+        }
+    }
+
     // ---- streams, cancellation and typed hosts: the command lab app ------------------------------
     if mine() {
         stream_pattern(r, &wd, k, true);
@@ -295,6 +426,81 @@ fn main() {
     report.lock().unwrap().finish(&args);
 }
 
+fn typed_pattern(r: &Arc<Mutex<Report>>, wd: &Watchdog, p: Pattern, k: u64, mut step: impl FnMut(&mut TypedShell<AppD>, u64) -> Result<(), String>) {
+    wd.begin(|| json!({"lane": "occlab", "pattern": p.name, "cycles": k}).to_string());
+    let res = vcommon::trap(|| {
+        let mut sh = TypedShell::<AppD>::new("Core(derive)");
+        let mut samples = Vec::with_capacity(4);
+        HEAP.lock().unwrap().clear();
+        for i in 1..=k {
+            step(&mut sh, i)?;
+            if i == 1 || i == k / 2 || i == k {
+                note_heap();
+                samples.push(Occ {
+                    executor_tasks: sh.core.verif_executor_stats().live_tasks,
+                    cleared_timers: crux_time::verif_cleared_timer_ids_len(),
+                    ..Occ::default()
+                });
+            }
+        }
+        Ok::<_, String>(samples)
+    });
+    wd.end();
+    let mut r = r.lock().unwrap();
+    match res {
+        Ok(Ok(s)) if s.len() == 3 => judge(&mut r, &p, k, s[0], s[1], s[2], json!({"host": "typed core"})),
+        Ok(Ok(_)) => r.inconclusive(format!("pattern {} took too few cycles", p.name)),
+        Ok(Err(e)) => r.violation(&format!("pattern-failed/{}", p.name), &e, json!({"lane": "occlab", "pattern": p.name})),
+        Err(pn) => r.violation(&format!("panic/{}", vcommon::panic_site(&pn)), &format!("panic in pattern {}: {pn}", p.name), json!({"lane": "occlab", "pattern": p.name})),
+    }
+}
+
+/// a task creates a request future, never polls it (another branch was taken), emits and ends
+fn abandon_pattern(r: &Arc<Mutex<Report>>, wd: &Watchdog, k: u64, which: u8, name: &'static str) {
+    wd.begin(|| json!({"lane": "occlab", "pattern": name}).to_string());
+    let res = vcommon::trap(|| {
+        ops::reset_registries();
+        let mut core = match which {
+            0 => CoreHost::<ops::AppD>::new(false),
+            1 => CoreHost::<ops::AppD>::new(true),
+            _ => CoreHost::<ops::AppD>::mixed(),
+        };
+        let mut samples = Vec::with_capacity(4);
+        HEAP.lock().unwrap().clear();
+        for i in 1..=k {
+            let site = (i * 4) as u32;
+            let program = Cmd::Async(Script {
+                instrs: vec![
+                    Instr::Abandon { site },
+                    Instr::Req { site: site + 1, arg: None },
+                    Instr::Abandon { site: site + 2 },
+                    Instr::Emit { tag: site, reg: Some(0) },
+                ],
+            });
+            core.start(&program);
+            core.act(&Action::Resolve { site: site + 1, arg: 0, val: i });
+            core.table.clear();
+            if i == 1 || i == k / 2 || i == k {
+                note_heap();
+                samples.push(Occ {
+                    executor_tasks: core.core.verif_executor_stats().live_tasks,
+                    ..Occ::default()
+                });
+            }
+        }
+        Ok::<_, String>(samples)
+    });
+    wd.end();
+    let mut rr = r.lock().unwrap();
+    let p = Pattern { name, known: &[] };
+    match res {
+        Ok(Ok(s)) if s.len() == 3 => judge(&mut rr, &p, k, s[0], s[1], s[2], json!({})),
+        Ok(Ok(_)) => rr.inconclusive("pattern took too few cycles"),
+        Ok(Err(e)) => rr.violation(&format!("pattern-failed/{name}"), &e, json!({"lane": "occlab", "pattern": name})),
+        Err(pn) => rr.violation(&format!("panic/{}", vcommon::panic_site(&pn)), &format!("panic in pattern {name}: {pn}"), json!({"lane": "occlab", "pattern": name})),
+    }
+}
+
 /// subscribe, one item, consumer ends (the chain's inner request is dropped so the task is evicted,
 /// or: the bridge cannot drop, so the consumer is a script that reads one item and finishes)
 fn stream_pattern(r: &Arc<Mutex<Report>>, wd: &Watchdog, k: u64, over_bridge: bool) {
@@ -303,7 +509,8 @@ fn stream_pattern(r: &Arc<Mutex<Report>>, wd: &Watchdog, k: u64, over_bridge: bo
     wd.begin(|| json!({"lane": "occlab", "pattern": name}).to_string());
     let res = vcommon::trap(|| {
         ops::reset_registries();
-        let mut samples = vec![];
+        let mut samples = Vec::with_capacity(4);
+        HEAP.lock().unwrap().clear();
         let mut bridge = BridgeHost::<LabAppM>::new(Wire::Bincode);
         let mut core = CoreHost::<LabAppM>::new(false);
         for i in 1..=k {
@@ -346,6 +553,7 @@ fn stream_pattern(r: &Arc<Mutex<Report>>, wd: &Watchdog, k: u64, over_bridge: bo
                         ..Occ::default()
                     }
                 };
+                note_heap();
                 samples.push(occ);
             }
         }
@@ -370,7 +578,8 @@ fn core_drop_pattern(r: &Arc<Mutex<Report>>, wd: &Watchdog, k: u64) {
     let res = vcommon::trap(|| {
         ops::reset_registries();
         let mut core = CoreHost::<LabAppM>::new(false);
-        let mut samples = vec![];
+        let mut samples = Vec::with_capacity(4);
+        HEAP.lock().unwrap().clear();
         for i in 1..=k {
             let a = (i * 4) as u32;
             let b = a + 1;
@@ -404,6 +613,7 @@ fn core_drop_pattern(r: &Arc<Mutex<Report>>, wd: &Watchdog, k: u64) {
             }
             core.table.clear();
             if i == 1 || i == k / 2 || i == k {
+                note_heap();
                 samples.push(Occ {
                     executor_tasks: core.core.verif_executor_stats().live_tasks,
                     ..Occ::default()
@@ -432,7 +642,8 @@ fn direct_spawn_pattern(r: &Arc<Mutex<Report>>, wd: &Watchdog, k: u64) {
         ops::reset_registries();
         let mut host = Direct::<cmdlab::ops::m::Effect>::new();
         host.start(&Cmd::Done);
-        let mut samples = vec![];
+        let mut samples = Vec::with_capacity(4);
+        HEAP.lock().unwrap().clear();
         for i in 1..=k {
             let site = (i * 4) as u32;
             let chain = Cmd::Chain(
@@ -449,6 +660,7 @@ fn direct_spawn_pattern(r: &Arc<Mutex<Report>>, wd: &Watchdog, k: u64) {
                 host.act(&Action::DropReq { site, arg: 0 })
             };
             if i == 1 || i == k / 2 || i == k {
+                note_heap();
                 samples.push(Occ {
                     executor_tasks: o.live_tasks.unwrap_or(0),
                     ..Occ::default()
